@@ -1,6 +1,7 @@
 import TxVerif.Props.C13
 import TxVerif.Tie.PQ
 import TxVerif.Props.C13Stale
+import TxVerif.Props.PQQueueConc
 open TxVerif
 #print axioms pq_writers_exclusive
 #print axioms pq_no_deadlock
@@ -22,3 +23,29 @@ open TxVerif
 #print axioms layoutFrom_extends
 #print axioms chainExt_iff_flush
 #print axioms Extends.chainExt
+#print axioms sim_pstep
+#print axioms pstep_facts
+#print axioms ack_decomp
+#print axioms planOK_init
+#print axioms planOK_grow
+#print axioms sim_ackApply
+#print axioms linearize_inv
+#print axioms stepP_inv
+#print axioms stepC_inv
+#print axioms step_inv
+#print axioms conc_inv
+#print axioms conc_linearizable
+#print axioms CReach.inv
+#print axioms conc_counters
+#print axioms runLin_events
+#print axioms conc_events
+#print axioms conc_fifo
+#print axioms reader_page_live_of_inv
+#print axioms conc_ack_safe
+#print axioms conc_no_deadlock
+#print axioms step_mu
+#print axioms effSteps_le
+#print axioms conc_terminates
+#print axioms conc_example_stale_plan
+#print axioms conc_example_blocking
+#print axioms conc_reach_example
